@@ -138,6 +138,93 @@ pub fn run(action: &str, spec: &ChildSpec) -> anyhow::Result<Value> {
             let proof = p.commit(PublicBatchInputs { proofs: vec![inner], aggregator_address: BytesDigest::try_from([7u8; 32]).unwrap() })?.prove()?;
             Ok(json!({"public_inputs": proof.public_inputs.len()}))
         }
+        // ------------------------------------------------ histories in ONE process
+        // A long-running service rotating artifacts: before each step the live directory is made
+        // identical to one of the prepared variants (same path, new content), then a loader boots
+        // from it. Acceptance must not depend on what the process saw before.
+        "boot_history" => {
+            let bins = dir_of(spec);
+            let variants: Vec<PathBuf> = spec.args["variants"].as_array().unwrap().iter().map(|v| PathBuf::from(v.as_str().unwrap())).collect();
+            let steps = spec.args["steps"].as_array().unwrap();
+            let mut results = vec![];
+            for st in steps {
+                let loader = st["loader"].as_str().unwrap().to_string();
+                let var = st["variant"].as_u64().unwrap() as usize;
+                // rotate in place
+                std::fs::create_dir_all(&bins)?;
+                for e in std::fs::read_dir(&bins)? {
+                    let e = e?;
+                    std::fs::remove_file(e.path())?;
+                }
+                for e in std::fs::read_dir(&variants[var])? {
+                    let e = e?;
+                    std::fs::copy(e.path(), bins.join(e.file_name()))?;
+                }
+                let mut sub = spec.clone();
+                sub.action = loader.clone();
+                sub.args.insert("n".into(), st["n"].clone());
+                sub.args.insert("m".into(), st["m"].clone());
+                let r = std::panic::catch_unwind(std::panic::AssertUnwindSafe(|| run(&loader, &sub)));
+                results.push(match r {
+                    Ok(Ok(_)) => json!({"result": "ok"}),
+                    Ok(Err(e)) => json!({"result": "err", "error": format!("{e:#}")}),
+                    Err(_) => json!({"result": "panic"}),
+                });
+            }
+            Ok(json!({"steps": results}))
+        }
+        // Object constructors given different pinned verifiers in one process: leaf-shaped circuits
+        // with different verifier keys and dummy-sentinel templates proved under each. Each call is
+        // judged on its own: the template must verify under THE verifier passed to that call.
+        "template_history" => {
+            use plonky2::field::types::Field;
+            use plonky2::iop::witness::{PartialWitness, WitnessWrite};
+            use plonky2::plonk::circuit_builder::CircuitBuilder;
+            use plonky2::plonk::circuit_data::{CircuitConfig, CircuitData, VerifierCircuitData};
+            let build_alt = |tag: u64| -> (CircuitData<F, C, D>, Vec<plonky2::iop::target::Target>) {
+                let mut b = CircuitBuilder::<F, D>::new(CircuitConfig::standard_recursion_config());
+                let pis = b.add_virtual_targets(21);
+                b.range_check(pis[1], 32);
+                b.range_check(pis[2], 32);
+                b.range_check(pis[3], 32);
+                // a constant that differs per circuit: same shape, different verifier key
+                let c = b.constant(F::from_canonical_u64(tag));
+                let prod = b.mul(c, pis[3]);
+                b.range_check(prod, 63);
+                b.register_public_inputs(&pis);
+                (b.build::<C>(), pis)
+            };
+            let prove_dummy = |d: &CircuitData<F, C, D>, t: &[plonky2::iop::target::Target]| -> Proof {
+                let mut pw = PartialWitness::new();
+                for x in t {
+                    pw.set_target(*x, F::ZERO).unwrap();
+                }
+                d.prove(pw).expect("alt dummy proves")
+            };
+            let (ca, ta) = build_alt(3);
+            let (cb, tb) = build_alt(5);
+            let canon = canonical_leaf_verifier_data();
+            let circuits: Vec<VerifierCircuitData<F, C, D>> = vec![canon.clone(), ca.verifier_data(), cb.verifier_data()];
+            let d = dir_of(spec);
+            let t0 = Proof::from_bytes(raw(&d.join("dummy_proof.bin"))?, &canon.common).map_err(|e| anyhow!("{e}"))?;
+            let mut flipped = prove_dummy(&ca, &ta);
+            flipped.public_inputs[3] = F::from_canonical_u64(9); // not a sentinel field; breaks verification only
+            let templates: Vec<Proof> = vec![t0, prove_dummy(&ca, &ta), prove_dummy(&cb, &tb), flipped];
+            let mut results = vec![];
+            for st in spec.args["steps"].as_array().unwrap() {
+                let (ci, ti) = (st["circuit"].as_u64().unwrap() as usize, st["template"].as_u64().unwrap() as usize);
+                let vd = &circuits[ci];
+                let truth = std::panic::catch_unwind(std::panic::AssertUnwindSafe(|| vd.verify(templates[ti].clone()).is_ok())).unwrap_or(false);
+                let r = std::panic::catch_unwind(std::panic::AssertUnwindSafe(|| PrivateBatchProver::new(wormhole_private_batch_circuit_config(), vd.common.clone(), &vd.verifier_only, 1, templates[ti].clone()).map(|_| ())));
+                let got = match r {
+                    Ok(Ok(())) => "ok",
+                    Ok(Err(_)) => "err",
+                    Err(_) => "panic",
+                };
+                results.push(json!({"circuit": ci, "template": ti, "result": got, "template_verifies_under_this_verifier": truth}));
+            }
+            Ok(json!({"steps": results}))
+        }
         other => anyhow::bail!("unknown child action {other}"),
     }
 }
